@@ -356,7 +356,14 @@ DurationCount == \A s_ \in Sess, r_ \in Reps : CountOK(NHiM, MediaStarts(s_, r_)
 DurationLmsg  == \A s_ \in Sess, r_ \in Reps : \A k \in 2..Len(log[s_][r_]) :                      \* C16.duration
                     LmsgOK(NLoM, NHiM, k - 1, log[s_][r_][k].last)
 
-Quiescent == ~ENABLED Next
+\* nothing can move any more (explicit form of ~ENABLED Next, checked equivalent by QuiescentDef in IngesterImpl_quiesc.cfg)
+Quiescent ==
+   /\ \A z \in Sess : \/ pc[<<"loop", z, "">>] = "Done"
+                       \/ (pc[<<"loop", z, "">>] = "sel" /\ ~ctxDone[z] /\ \A c \in Clients : offer[c] # z)
+   /\ \A z \in Sess, r \in Reps : pc[<<"snd", z, r>>] = "s0" /\ job[z][r] = <<>>
+   /\ \A c \in Clients : \/ pc[<<"cl", c, "">>] = "Done"
+                          \/ (pc[<<"cl", c, "">>] = "c1" /\ offer[c] # 0 /\ ~(StepGuard /\ state[offer[c]] = "stopped"))
+QuiescentDef == Quiescent <=> ~ENABLED Next
 Delivered == Quiescent => \A s_ \in Sess : (~delCalled[s_] /\ ~initErr[s_]) =>                     \* C16.step
                 \A r_ \in Reps : StepDeliveredOK(servedLive[s_], ends[s_][r_], IF NSeg = 0 THEN -1 ELSE NSeg + Extra)
 \* a client blocked for ever is blocked in a step on a session that may legitimately have stopped
